@@ -191,6 +191,9 @@ func (e *Enc) compile(c *SpecCtx, x *Expr) CE {
 		a, b = e.unify(c, a, b)
 		return CE{T: ite(cond, a.T, b.T), Typ: a.Typ}
 	case "forall", "exists":
+		if x.VarType == "elem" && len(x.Args) == 2 {
+			return e.compileQuantOver(c, x)
+		}
 		srt, typ := e.specSortOf(x.VarType)
 		if srt == "" || typ == nil {
 			fail("%s: bad quantifier type %s", c.what, x.VarType)
@@ -325,7 +328,7 @@ func (e *Enc) compileSel(c *SpecCtx, x *Expr) CE {
 			if a.P != nil {
 				pl = &Place{Kind: PField, Base: a.P, Field: i, Typ: ft}
 			}
-			return e.typedRead(CE{T: e.B.structField(a.Typ, a.T, i), Typ: ft, P: pl})
+			return e.typedRead(c, CE{T: e.B.structField(a.Typ, a.T, i), Typ: ft, P: pl})
 		}
 	}
 	fail("%s: no field %s in %s", c.what, x.Name, a.Typ)
@@ -357,16 +360,18 @@ func (e *Enc) compileIdx(c *SpecCtx, x *Expr) CE {
 	case *types.Slice:
 		ptr := fmt.Sprintf("(mkptr (sarr %s) (+ (soff %s) %s))", a.T, a.T, e.toInt(c, i))
 		pl := &Place{Kind: PDeref, Ptr: ptr, Typ: u.Elem()}
-		return e.typedRead(CE{T: e.getPlace(c.st, pl), Typ: u.Elem(), P: pl})
+		return e.typedRead(c, CE{T: e.getPlace(c.st, pl), Typ: u.Elem(), P: pl})
 	case *types.Array:
 		var pl *Place
 		if a.P != nil {
 			pl = &Place{Kind: PIndex, Base: a.P, Idx: i.T, Typ: u.Elem()}
 		}
-		return e.typedRead(CE{T: fmt.Sprintf("(select %s %s)", a.T, i.T), Typ: u.Elem(), P: pl})
+		return e.typedRead(c, CE{T: fmt.Sprintf("(select %s %s)", a.T, i.T), Typ: u.Elem(), P: pl})
 	case *types.Map:
+		// Go semantics: the zero value for an absent key (and for a nil map)
 		val := e.get(c.st, e.mapKey(u, "val"), e.mapSort(u, "val"))
-		return e.typedRead(CE{T: fmt.Sprintf("(select (select %s %s) %s)", val, a.T, i.T), Typ: u.Elem()})
+		dom := e.get(c.st, e.mapKey(u, "dom"), e.mapSort(u, "dom"))
+		return e.typedRead(c, CE{T: fmt.Sprintf("(ite (select (select %s %s) %s) (select (select %s %s) %s) %s)", dom, a.T, i.T, val, a.T, i.T, e.B.zeroOf(u.Elem())), Typ: u.Elem()})
 	case *types.Basic:
 		e.B.declTop("strbyte", "(declare-fun strbyte (Str Int) Int)")
 		return CE{T: fmt.Sprintf("(strbyte %s %s)", a.T, i.T), Typ: tMath}
@@ -406,6 +411,17 @@ func (e *Enc) unify(c *SpecCtx, a, b CE) (CE, CE) {
 	return a, b
 }
 
+func nilable(t types.Type) bool {
+	switch t.Underlying().(type) {
+	case *types.Pointer, *types.Interface, *types.Slice, *types.Map, *types.Chan, *types.Signature:
+		return true
+	}
+	if b, ok := t.Underlying().(*types.Basic); ok && b.Kind() == types.UnsafePointer {
+		return true
+	}
+	return false
+}
+
 func (e *Enc) nilOf(c *SpecCtx, t types.Type) CE {
 	if t == nil {
 		fail("%s: nil compared with untyped value", c.what)
@@ -440,6 +456,21 @@ func (e *Enc) compileBin(c *SpecCtx, x *Expr) CE {
 	}
 	a := e.compile(c, x.Args[0])
 	b := e.compile(c, x.Args[1])
+	if (op == "==" || op == "!=") && (a.Nil != b.Nil) {
+		// a contract shared by the instances of a generic function may compare a
+		// type-parameter value with nil: for an instance whose type argument
+		// has no nil (a struct, a number) the comparison is simply false
+		o := a
+		if a.Nil {
+			o = b
+		}
+		if o.Typ != nil && !nilable(o.Typ) {
+			if op == "==" {
+				return CE{T: "false", Typ: tBool}
+			}
+			return CE{T: "true", Typ: tBool}
+		}
+	}
 	a, b = e.unify(c, a, b)
 	switch op {
 	case "==", "!=":
@@ -770,12 +801,17 @@ func (e *Enc) lookupType(name string) types.Type {
 // Go type's range. Real states only hold in-range values, so clamping is the
 // identity on them; it hands the solver the range fact in either polarity
 // (code-side loads assume the same range directly).
-func (e *Enc) typedRead(ce CE) CE {
-	if ce.Typ == nil || isMath(ce.Typ) {
+//
+// Likewise a slice or pointer read from memory refers to an object that already
+// exists in that state: its reference is at or above the allocation mark, so it
+// can never be confused with an object allocated later.
+func (e *Enc) typedRead(c *SpecCtx, ce CE) CE {
+	if ce.Typ == nil || isMath(ce.Typ) || ce.T == "" {
 		return ce
 	}
 	if ii, ok := intInfoOf(ce.Typ); ok {
 		ce.T = fmt.Sprintf("(imax %s (imin %s %s))", intLit(ii.lo()), intLit(ii.hi()), ce.T)
+		return ce
 	}
 	return ce
 }
